@@ -327,10 +327,10 @@ Proof.
     eapply range_weaken; [apply H02|apply pos_le_refl|exact Hin3].
 Qed.
 
-Lemma pop_value_spec : forall fuel s,
-  wst_ok s -> wlive s -> (length (wrest s) < fuel)%nat -> value_res s (pop_value fuel s).
+Lemma pop_value_spec : forall fuel depth s,
+  wst_ok s -> wlive s -> (length (wrest s) < fuel)%nat -> value_res s (pop_value fuel depth s).
 Proof.
-  induction fuel as [|f IH]; intros s Hok Hl Hf; [lia|].
+  induction fuel as [|f IH]; intros depth s Hok Hl Hf; [lia|].
   cbn [pop_value].
   destruct (tt_eqb (next_type s) IDENT) eqn:E1.
   { apply tt_eqb_true in E1.
@@ -348,6 +348,7 @@ Proof.
   assert (Hr : wrest s <> []). { apply next_type_not_eof; auto. rewrite E3. discriminate. }
   destruct (pop_token_spec s Hok Hl) as (op & s1 & E & Hst & Hin & Hty & Hlen & Hte).
   rewrite E. cbn [wbind]. specialize (Hlen Hr).
+  destruct (N.leb max_value_depth depth); [cbn; split; assumption|].
   destruct (tt_eqb (next_type s1) RBRACK) eqn:E4.
   { destruct (pop_token_spec s1 (ws_ok _ _ Hst) (wstep_live _ _ Hst)) as (t2 & s2 & E' & Hst2 & Hin2 & Hty2 & Hlen2 & Hte2).
     rewrite E'. cbn. split; [eapply wstep_trans; eauto|]. split; [|intros _; pose proof (ws_len _ _ Hst2); lia].
@@ -355,7 +356,7 @@ Proof.
     destruct Hin as (A & B & C & D & F). destruct (ws_ok _ _ Hst2) as (V & _).
     repeat split; auto using pos_le_refl.
     eapply pos_le_trans; [exact D|]. eapply pos_le_trans; [exact F|apply Hst2]. }
-  eapply (pop_elems_spec (pop_value f) f s s1 op); auto.
+  eapply (pop_elems_spec (pop_value f (N.succ depth)) f s s1 op); auto.
   - apply pos_le_refl.
   - constructor.
   - lia.
